@@ -362,3 +362,32 @@ func vh_C07_BufferLimitSetter() {
 	vfAssert("fifo", vfSliceEq(l.delivered, l.accepted))
 	vfReach("end")
 }
+
+// the overflow buffer is filled and drained to empty several times over, so that its recycled list nodes are reused
+// (nodeHookPoolSize large enough to keep them): every round delivers exactly what it accepted, in order
+func vh_C07_BufferReusedAcrossRounds() {
+	vfSetMapOrder(2)
+	q := NewBufferedChannelQueue[c07Item](1, 4, []int{1, 10}[vfChoose("node-hooks", 2)])
+	l := &c07Log{}
+	next := 0
+	for round := 0; round < 3; round++ {
+		k := vfRange("offers", 1, 3)
+		for i := 0; i < k; i++ {
+			err := q.Offer(l.item(next))
+			vfAssert("offer-error-is-full-or-nil", err == nil || err == ErrQueueIsFull)
+			l.accept(next, err)
+			next++
+		}
+		for tries := 0; len(l.delivered) < len(l.accepted) && tries < 8; tries++ {
+			if v, err := q.TakeWithTimeout(150 * time.Millisecond); err == nil {
+				l.deliver(v)
+			}
+		}
+		vfAssert("nothing-lost-or-stranded", len(l.delivered) == len(l.accepted))
+		vfQuiesce()
+		vfAssert("count-after-drain", q.Count() == 0)
+	}
+	c07Check(l, true)
+	vfAssert("fifo", vfSliceEq(l.delivered, l.accepted))
+	vfReach("end")
+}
